@@ -8,7 +8,10 @@ import (
 	"strconv"
 	"strings"
 
+	"github.com/AliceO2Group/Control/core/task/taskclass"
+
 	"verifharness/fw"
+	"verifharness/sx"
 )
 
 // genFacts reads, from the source of makeTaskForMesosResources, the literal
@@ -72,6 +75,10 @@ func genFacts(repo string) (string, error) {
 	if err != nil {
 		return "", err
 	}
+	store, err := storeFacts(repo)
+	if err != nil {
+		return "", err
+	}
 	gs := make([]string, len(guards))
 	for i, g := range guards {
 		gs[i] = strconv.FormatBool(g)
@@ -86,7 +93,7 @@ func genFacts(repo string) (string, error) {
 		"def staticClaimedFirst : Bool := " + strconv.FormatBool(static) + "\n\n" +
 		"/-- Is `remainingResourcesInOffer.Subtract(resourcesRequest...)` called after NewCPUs(wants.Cpu) and\n" +
 		"    NewMemory(wants.Memory) were put into resourcesRequest and before anything else is? -/\n" +
-		"def scalarsSubtracted : Bool := " + strconv.FormatBool(scalars) + "\n\nend Gen.Placement\n", nil
+		"def scalarsSubtracted : Bool := " + strconv.FormatBool(scalars) + "\n\n" + store + "end Gen.Placement\n", nil
 }
 
 // ---- resource bookkeeping of makeTaskForMesosResources (notes/C05.fix-3/4/5) --------------------
@@ -307,6 +314,227 @@ func bookkeepingFacts(f *ast.File) (guards []bool, static, scalars bool, err err
 		}
 	}
 	return guards, static, scalars, nil
+}
+
+// ---- the class store across workflow loads (taskclass.Classes.UpdateClass, Manager.RefreshClasses, Class.Equals) ----
+
+func funcDecl(f *ast.File, recvType, name string) *ast.FuncDecl {
+	for _, d := range f.Decls {
+		fd, ok := d.(*ast.FuncDecl)
+		if !ok || fd.Name.Name != name || fd.Body == nil {
+			continue
+		}
+		if recvType == "" {
+			if fd.Recv == nil {
+				return fd
+			}
+			continue
+		}
+		if fd.Recv == nil || len(fd.Recv.List) != 1 {
+			continue
+		}
+		t := fd.Recv.List[0].Type
+		if st, ok := t.(*ast.StarExpr); ok {
+			t = st.X
+		}
+		if id, ok := t.(*ast.Ident); ok && id.Name == recvType {
+			return fd
+		}
+	}
+	return nil
+}
+
+func isIdent(e ast.Expr, name string) bool {
+	id, ok := e.(*ast.Ident)
+	return ok && id.Name == name
+}
+
+// updateOverwrites: UpdateClass(key, class) is
+//
+//	…statements that neither branch nor return nor assign to `class` itself…
+//	if <held?> { *<entry> = *class } else { <map>[key] = class }
+//
+// i.e. for a key that is held the entry is overwritten with the loaded class, unconditionally.
+func updateOverwrites(fd *ast.FuncDecl) bool {
+	if fd.Type.Params == nil {
+		return false
+	}
+	var params []string
+	for _, p := range fd.Type.Params.List {
+		for _, n := range p.Names {
+			params = append(params, n.Name)
+		}
+	}
+	if len(params) != 2 {
+		return false
+	}
+	key, class := params[0], params[1]
+	branches, bad := 0, false
+	ast.Inspect(fd.Body, func(n ast.Node) bool {
+		switch x := n.(type) {
+		case *ast.IfStmt:
+			branches++
+		case *ast.ReturnStmt, *ast.ForStmt, *ast.RangeStmt, *ast.SwitchStmt, *ast.TypeSwitchStmt, *ast.SelectStmt, *ast.BranchStmt, *ast.GoStmt, *ast.FuncLit:
+			bad = true
+		case *ast.AssignStmt:
+			for _, l := range x.Lhs {
+				if isIdent(l, class) || isIdent(l, key) {
+					bad = true
+				}
+			}
+		}
+		return true
+	})
+	if bad || branches != 1 {
+		return false
+	}
+	var is *ast.IfStmt
+	for _, st := range fd.Body.List {
+		if x, ok := st.(*ast.IfStmt); ok {
+			is = x
+		}
+	}
+	if is == nil || len(is.Body.List) != 1 {
+		return false
+	}
+	// then: *X = *class
+	as, ok := is.Body.List[0].(*ast.AssignStmt)
+	if !ok || as.Tok != token.ASSIGN || len(as.Lhs) != 1 || len(as.Rhs) != 1 {
+		return false
+	}
+	if _, ok := as.Lhs[0].(*ast.StarExpr); !ok {
+		return false
+	}
+	if r, ok := as.Rhs[0].(*ast.StarExpr); !ok || !isIdent(r.X, class) {
+		return false
+	}
+	// else: M[key] = class
+	eb, ok := is.Else.(*ast.BlockStmt)
+	if !ok || len(eb.List) != 1 {
+		return false
+	}
+	es, ok := eb.List[0].(*ast.AssignStmt)
+	if !ok || es.Tok != token.ASSIGN || len(es.Lhs) != 1 || len(es.Rhs) != 1 || !isIdent(es.Rhs[0], class) {
+		return false
+	}
+	ix, ok := es.Lhs[0].(*ast.IndexExpr)
+	return ok && isIdent(ix.Index, key)
+}
+
+// refreshUpdatesEvery: in Manager.RefreshClasses a top-level `for _, v := range L`, L assigned from getTaskClassList(…),
+// whose body calls m.classes.UpdateClass(…, v) and has no branch (if / continue / break / return).
+func refreshUpdatesEvery(fd *ast.FuncDecl) bool {
+	fromList := map[string]bool{}
+	for _, st := range fd.Body.List {
+		if as, ok := st.(*ast.AssignStmt); ok && len(as.Rhs) == 1 {
+			if c, ok := as.Rhs[0].(*ast.CallExpr); ok && isIdent(c.Fun, "getTaskClassList") && len(as.Lhs) >= 1 {
+				if id, ok := as.Lhs[0].(*ast.Ident); ok {
+					fromList[id.Name] = true
+				}
+			}
+		}
+	}
+	for _, st := range fd.Body.List {
+		rs, ok := st.(*ast.RangeStmt)
+		if !ok {
+			continue
+		}
+		x, ok := rs.X.(*ast.Ident)
+		v, ok2 := rs.Value.(*ast.Ident)
+		if !ok || !ok2 || !fromList[x.Name] {
+			continue
+		}
+		branch := mentions(rs.Body, func(n ast.Node) bool {
+			switch n.(type) {
+			case *ast.IfStmt, *ast.BranchStmt, *ast.ReturnStmt, *ast.SwitchStmt, *ast.GoStmt:
+				return true
+			}
+			return false
+		})
+		calls := false
+		for _, b := range rs.Body.List {
+			es, ok := b.(*ast.ExprStmt)
+			if !ok {
+				continue
+			}
+			c, ok := es.X.(*ast.CallExpr)
+			if !ok || len(c.Args) != 2 || !isIdent(c.Args[1], v.Name) {
+				continue
+			}
+			if sel, ok := c.Fun.(*ast.SelectorExpr); ok && sel.Sel.Name == "UpdateClass" && isSel(sel.X, "m", "classes") {
+				calls = true
+			}
+		}
+		if calls && !branch {
+			return true
+		}
+	}
+	return false
+}
+
+// equalsTable: the LINKED Class.Equals on a template and a copy edited in exactly one place: does it notice?
+func equalsTable() ([]string, error) {
+	base := "((role flp 0)) 4 512 8000-8002 (1 0) \"sleep 1\""
+	edits := []struct{ what, cls string }{
+		{"command", "((role flp 0)) 4 512 8000-8002 (1 0) \"sleep 2\""},
+		{"cpu", "((role flp 0)) 8 512 8000-8002 (1 0) \"sleep 1\""},
+		{"memory", "((role flp 0)) 4 1024 8000-8002 (1 0) \"sleep 1\""},
+		{"ports", "((role flp 0)) 4 512 8100-8102 (1 0) \"sleep 1\""},
+		{"constraints", "((role epn 0)) 4 512 8000-8002 (1 0) \"sleep 1\""},
+		{"bind", "((role flp 0)) 4 512 8000-8002 (1 0 1) \"sleep 1\""},
+		{"nothing", base},
+	}
+	mk := func(src string) (*taskclass.Class, error) {
+		n, err := sx.Parse("(" + src + ")")
+		if err != nil {
+			return nil, err
+		}
+		return classOf("cls0", n)
+	}
+	b, err := mk(base)
+	if err != nil {
+		return nil, err
+	}
+	var out []string
+	for _, e := range edits {
+		c, err := mk(e.cls)
+		if err != nil {
+			return nil, err
+		}
+		out = append(out, fmt.Sprintf("(%q, %v)", e.what, !b.Equals(c)))
+	}
+	return out, nil
+}
+
+func storeFacts(repo string) (string, error) {
+	fset := token.NewFileSet()
+	fc, err := parser.ParseFile(fset, repo+"/core/task/taskclass/classes.go", nil, 0)
+	if err != nil {
+		return "", err
+	}
+	up := funcDecl(fc, "Classes", "UpdateClass")
+	if up == nil {
+		return "", fmt.Errorf("taskclass.Classes.UpdateClass not found")
+	}
+	fm, err := parser.ParseFile(fset, repo+"/core/task/manager.go", nil, 0)
+	if err != nil {
+		return "", err
+	}
+	rf := funcDecl(fm, "Manager", "RefreshClasses")
+	if rf == nil {
+		return "", fmt.Errorf("task.Manager.RefreshClasses not found")
+	}
+	tab, err := equalsTable()
+	if err != nil {
+		return "", err
+	}
+	return "/-- `Classes.UpdateClass(key, class)`: no branch but one `if held { *entry = *class } else { map[key] = class }`, no return,\n" +
+		"    no assignment to its parameters — a held key's entry is overwritten with the loaded class unconditionally. -/\n" +
+		"def updateOverwrites : Bool := " + strconv.FormatBool(updateOverwrites(up)) + "\n\n" +
+		"/-- `Manager.RefreshClasses`: every class of `getTaskClassList(…)` is handed to `m.classes.UpdateClass`, in a loop without a branch. -/\n" +
+		"def refreshUpdatesEvery : Bool := " + strconv.FormatBool(refreshUpdatesEvery(rf)) + "\n\n" +
+		"/-- The linked `Class.Equals` on a template and a copy edited in exactly one place: does it notice the edit? -/\n" +
+		"def equalsNotices : List (String × Bool) := [" + strings.Join(tab, ", ") + "]\n\n", nil
 }
 
 func init() {
